@@ -11,6 +11,11 @@ HELPERS = (
     (('f', 'ap', (V(1), V(2))), ('call', ('f', 'call', (V(1), V(2))))),
     (('f', 'ap', (V(1), V(2), V(3))), ('call', ('f', 'call', (V(1), V(2), V(3))))),
 )
+WIDE = (
+    (('f', 'w8', tuple(('i', i) for i in range(8))), ('true',)),
+    (('f', 'w8', tuple(('a', 'abcdefgh'[i]) for i in range(8))), ('true',)),
+    (('f', 'w9', tuple(('i', i) for i in range(9))), ('true',)),
+)
 HELPER_PREDS = [('do', 1), ('do1', 1), ('all', 3), ('ap', 2), ('ap', 3)]
 
 
@@ -31,10 +36,17 @@ class C09(C.ProgramDiff):
                    'findall/3 with non-ground instances: neither the ISO copy reading nor the engine\'s sharing is asserted']
     cases = {'quick': 2400, 'thorough': 40000}
     cfg = gen.with_cfg(control=frozenset(['cut', ';', 'ite', 'not']), meta=True, library=True)
-    extra_clauses = HELPERS
+    extra_clauses = HELPERS + WIDE
 
     def gen_query(self, src, preds, clauses):
-        k = src.n(6)
+        k = src.n(7)
+        if k == 6:
+            # call/N with many extra arguments (goal given as an atom or with a few arguments already)
+            name, n = src.pick([('w8', 8), ('w9', 9)])
+            keep = src.n(3)
+            args = tuple(gen.QVARS[i % 3] if src.n(3) else ('i', i) for i in range(n))
+            g = ('f', name, args[:keep]) if keep else ('a', name)
+            return ('f', 'call', (g,) + args[keep:])
         if k >= 3:
             return gen.gen_query(src, preds, self.cfg, clauses)
         goal = gen.gen_callable(src, gen.QVARS, preds, self.cfg)
